@@ -38,7 +38,8 @@ func VerifC38Counters() {
 	caps.MaximumClientWritesPending = int32(vParam("QUEUE", 1))
 	s, _ := vNewServer(&Options{Capabilities: caps})
 	ver := byte(vConcrete(int(vByteIn("\x04\x05")), 4, 5))
-	c1 := vDial(s, vConnOpts{ver: ver, id: "c1", clean: vBool(), keepalive: 60, seiSet: ver == 5, sei: 50, rm: 5})
+	// receive maximum 1: the second unacknowledged QoS 1 message is held back by flow control
+	c1 := vDial(s, vConnOpts{ver: ver, id: "c1", clean: vBool(), keepalive: 60, seiSet: ver == 5, sei: 50, rm: []uint16{5, 1}[vChoose(2)]})
 	connected := 1
 	vAssertCounters(s, connected)
 	live := true
